@@ -33,6 +33,13 @@ RULE = ('The C01 problem generator (pool of 1-6 clients with dyadic data, '
         'relations also see rounds without any example). '
         'Non-trivial: some round has >=2 clients of different sizes with a size '
         'not divisible by batch_size, and the history has >=2 rounds.')
+RULE += (
+    ' '
+    'Later widenings: cohorts that list one client twice; a third of the histories first try '
+    'a round from the current state over the same ids with other data and throw it away; key-'
+    'using losses for FedProx(0) and MimeLite; regularizer variants; a user-defined client op'
+    'timizer that keeps the values it was started from; example-free rounds for the FedProx r'
+    'elations.')
 ASSUMPTIONS = [
     'rng-independent least-squares loss for the HypCluster(1) and APFL relations '
     '(HypCluster spends part of the client key on the cluster-assignment pass, '
